@@ -20,7 +20,8 @@ def handlers : List (String × (List String → Option String)) :=
     ("init-accept", Init.handleAccept), ("init-rhs", Init.handleRhs), ("charac", Init.handleCharac), ("init-saved", Init.handleSaved),
     ("relink", Protocol.Graph.handle),
     ("par-eval", Params.handleEval), ("prog-cov", Params.handleProgCov), ("par-order", Params.handleOrder),
-    ("c09-gate", Scenario.handleGate), ("c09-evalone", Scenario.handleEvalOne), ("c09-scen", Scenario.handleScen) ]
+    ("c09-gate", Scenario.handleGate), ("c09-evalone", Scenario.handleEvalOne), ("c09-scen", Scenario.handleScen),
+    ("rules", Rules.handle) ]
 
 /-- One request per line: `<kind> <args…>`; one canonical reply per line. -/
 def dispatch (line : String) : String :=
